@@ -104,7 +104,7 @@ func cmdPlugin(args []string) {
 	seed := fs.Int("seed", 1, "sampling seed")
 	fs.Parse(args)
 	u := corpus.PluginUniverse()
-	universe := []*corpus.File{u["xbe"], u["A"], u["xa2"], u["B"], u["C"], u["D"], u["E"]}
+	universe := []*corpus.File{u["xbe"], u["A"], u["xa2"], u["B"], u["C"], u["D"], u["E"], u["F"], u["G"], u["H"]}
 	base := map[string]string{}
 	for k, f := range u {
 		base[strings.TrimSuffix(filepath.Base(f.Name), ".proto")] = k
@@ -167,7 +167,11 @@ func cmdPlugin(args []string) {
 					bin = alias
 				}
 			}
-			resp, stderr, err := RunPlugin(bin, req, env)
+			// the working directory is environment as well: the root, the scratch directory, or
+			// two levels below it
+			cwd := []string{"/", tmp, filepath.Join(tmp, "a", "b")}[r%3]
+			os.MkdirAll(cwd, 0o755)
+			resp, stderr, err := RunPluginIn(bin, req, env, cwd)
 			os.RemoveAll(tmp)
 			ev := pluginEvent{Ev: "run", pluginCase: c, Param: param, Run: r, Out: []outFile{}, Hermetic: []string{}}
 			switch {
